@@ -69,15 +69,20 @@ Inductive lstep (canc : bool) : list cell -> bool -> bool -> list cell -> Prop :
 
 Record config := mkConfig { cancelled : bool; crashed : bool; cells : list cell }.
 
-(* a crashed process makes no further step *)
+(* a crashed process makes no further step; besides the transitions of the goroutines there is one action of
+   the environment: THE CLIENT GOES AWAY -- net/http cancels the request context and every later write to the
+   ResponseWriter fails. It can happen at any moment (once). *)
 Definition step (c c' : config) : Prop :=
-  crashed c = false /\ lstep (cancelled c) (cells c) (cancelled c') (crashed c') (cells c').
+  crashed c = false /\
+  (lstep (cancelled c) (cells c) (cancelled c') (crashed c') (cells c') \/
+   (cancelled c = false /\ cancelled c' = true /\ crashed c' = false /\ cells c' = cells c)).
 
 Inductive star : config -> config -> Prop :=
 | star_refl : forall c, star c c
 | star_step : forall c1 c2 c3, step c1 c2 -> star c2 c3 -> star c1 c3.
 
-Definition stuck (c : config) : Prop := forall c', ~ step c c'.
+(* no goroutine can move (whatever the client does) *)
+Definition quiescent (c : config) : Prop := forall canc' k l', ~ lstep (cancelled c) (cells c) canc' k l'.
 
 Definition closed_st (st : cstate) : bool := match st with CDone _ => true | _ => false end.
 (* every goroutine has returned and closed its channel; the cursor is released; nothing is blocked *)
@@ -106,6 +111,13 @@ Definition cell_ok (c : cell) : Prop :=
   end.
 (* what a stage looks like when the request starts: waiting for input, or writing a header first *)
 Definition fresh_stage (c : cell) : Prop := exiting_nodrain (c_st c) = false /\ cell_ok c.
+
+(* the HTTP handler loop `for x := range ch { w.Write(x) }`: a write never blocks (it is a send to the always-ready
+   environment of the last cell) but fails once the client is gone (ctx.Done() = true). keeps_receiving = the
+   loop ignores the write error and goes on receiving until the channel is closed -- what the code does. *)
+Definition handler_node (keeps_receiving : bool) : node :=
+  mkNode (fun canc s m => if canc && negb keeps_receiving then mkRR [] false (NStop false) else mkRR [m] false (NCont s))
+         (fun _ _ => mkCR [] false) (fun _ => true).
 
 (* initial configuration: cursor with its rows, the stages waiting for input (some already sending a header),
    the handler receiving *)
@@ -195,7 +207,7 @@ Arguments ACont {S}. Arguments AExit {S}. Arguments AFault {S}.
 Arguments CRecv {S M}. Arguments CSend {S M}. Arguments CDone {S M}.
 Arguments mkCell {S M}. Arguments c_node {S M}. Arguments c_st {S M}.
 Arguments mkConfig {S M}. Arguments cancelled {S M}. Arguments crashed {S M}. Arguments cells {S M}.
-Arguments lstep {S M}. Arguments step {S M}. Arguments star {S M}. Arguments stuck {S M}.
+Arguments lstep {S M}. Arguments step {S M}. Arguments star {S M}. Arguments quiescent {S M}. Arguments handler_node {S M}.
 Arguments all_done {S M}. Arguments closed_st {S M}. Arguments good_node {S M}. Arguments nofault_node {S M}.
 Arguments exiting_nodrain {S M}. Arguments cell_ok {S M}. Arguments fresh_stage {S M}.
 Arguments cursor_cell {S M}. Arguments idle_node {S M}. Arguments init_config {S M}. Arguments mcell {S M}. Arguments set_st {S M}.
